@@ -4,7 +4,7 @@
  *  FCV_ROOTS=a:b       absolute path prefixes of interest (a call is logged/counted/faulted only
  *                      if one of its paths lies under a root)
  *  FCV_PLAN=rules      fault plan, rules separated by ';' or newline:
- *                         <ops>|<hex path substring or empty>|<nth or 0=every>|<action>
+ *                         <ops>|<hex path substring or empty, '=' prefix: exact match of path1>|<nth or 0=every>|<action>
  *                      ops: comma list of op names or classes MUT, READ, ANY
  *                      action: fail:<errno> | killb | killa | short:<n> | delay:<us>
  *  FCV_FICLONE=emulate implement ioctl(FICLONE) as a whole-file copy
@@ -54,6 +54,7 @@ struct rule {
     char ops[256];
     char sub[PATH_MAX];
     size_t sublen;
+    int exact; /* path1 must equal sub instead of containing it */
     long nth;
     volatile long count;
     int action; /* 1 fail, 2 killb, 3 killa, 4 short, 5 delay */
@@ -96,6 +97,7 @@ static void parse_plan(const char *plan) {
                 struct rule *r = &g_rules[g_nrules];
                 memset(r, 0, sizeof *r);
                 snprintf(r->ops, sizeof r->ops, ",%s,", f1);
+                if (f2[0] == '=') { r->exact = 1; f2++; }
                 size_t hl = strlen(f2);
                 size_t k = 0;
                 for (size_t i = 0; i + 1 < hl + 1 && i + 1 < 2 * sizeof r->sub; i += 2) {
@@ -261,6 +263,9 @@ static void logfired(int idx, long seq, const char *what) {
 /* Decide what to do for a call. Returns action (0 none, 1 fail, 2 killb(handled here), 3 killa, 4 short,
  * 5 delay(handled here)); *arg receives the action argument; *ridx the rule index. */
 static int plan_for(const char *op, int cls, const char *p1, const char *p2, long seq, long *arg, int *ridx) {
+    /* every rule counts every call it matches; the first rule whose count reaches its nth fires */
+    struct rule *hit_rule = NULL;
+    int hit_idx = -1;
     for (int i = 0; i < g_nrules; i++) {
         struct rule *r = &g_rules[i];
         char needle[64];
@@ -269,7 +274,9 @@ static int plan_for(const char *op, int cls, const char *p1, const char *p2, lon
                       (cls == C_MUT && strstr(r->ops, ",MUT,")) || (cls == C_READ && strstr(r->ops, ",READ,")) ||
                       (cls == C_LOCK && strstr(r->ops, ",LOCK,"));
         if (!opmatch) continue;
-        if (r->sublen) {
+        if (r->sublen && r->exact) {
+            if (!p1 || strlen(p1) != r->sublen || memcmp(p1, r->sub, r->sublen) != 0) continue;
+        } else if (r->sublen) {
             int hit = 0;
             if (p1 && memmem(p1, strlen(p1), r->sub, r->sublen)) hit = 1;
             if (!hit && p2 && memmem(p2, strlen(p2), r->sub, r->sublen)) hit = 1;
@@ -277,21 +284,22 @@ static int plan_for(const char *op, int cls, const char *p1, const char *p2, lon
         }
         long c = __sync_add_and_fetch(&r->count, 1);
         if (r->nth != 0 && c != r->nth) continue;
-        *arg = r->arg;
-        *ridx = i;
-        if (r->action == 2) {
-            logfired(i, seq, "killb");
-            syscall(SYS_kill, getpid(), SIGKILL);
-            for (;;) pause();
-        }
-        if (r->action == 5) {
-            logfired(i, seq, "delay");
-            usleep((useconds_t)r->arg);
-            return 0;
-        }
-        return r->action;
+        if (!hit_rule) { hit_rule = r; hit_idx = i; }
     }
-    return 0;
+    if (!hit_rule) return 0;
+    *arg = hit_rule->arg;
+    *ridx = hit_idx;
+    if (hit_rule->action == 2) {
+        logfired(hit_idx, seq, "killb");
+        syscall(SYS_kill, getpid(), SIGKILL);
+        for (;;) pause();
+    }
+    if (hit_rule->action == 5) {
+        logfired(hit_idx, seq, "delay");
+        usleep((useconds_t)hit_rule->arg);
+        return 0;
+    }
+    return hit_rule->action;
 }
 
 static void kill_after(int ridx, long seq) {
